@@ -263,10 +263,7 @@ func (w *workerState) resolveUid(v *view, choice, pick int) string {
 		if v.cur != nil {
 			return v.cur.u
 		}
-		if len(v.hist) > 0 {
-			return v.hist[len(v.hist)-1].u
-		}
-		return w.freshUid()
+		return w.freshUid() // the worker believes the resource is absent: a create mints a new uid
 	case UidNew:
 		return w.freshUid()
 	case UidStale:
@@ -304,10 +301,6 @@ func (w *workerState) doWrite(be storage.Backend, h int, key, pv, pu string, gv2
 	gv := "v1"
 	if gv2 && key[0] == 'A' {
 		gv = "v2"
-	}
-	if pv == "" {
-		// creates carry a fresh uid: every real caller (the resource service) mints a new ULID when it creates
-		pu = w.freshUid()
 	}
 	w.seq++
 	res := &pbresource.Resource{
@@ -442,7 +435,7 @@ func (w *workerState) exec(op OpProg) {
 		if got != nil {
 			w.doWrite(be, h, key, got.V, got.U, op.GV2, w.ownerID(op.Owner))
 		} else {
-			w.doWrite(be, h, key, "", "", op.GV2, w.ownerID(op.Owner))
+			w.doWrite(be, h, key, "", w.freshUid(), op.GV2, w.ownerID(op.Owner))
 		}
 	case "list":
 		w.doList(be, h, QueryOf(op.Q))
@@ -681,7 +674,7 @@ func Run(ctx context.Context, tgt *Target, p *Prog) *History {
 			m.doRead(tgt.Watch, 0, KeyOf(k), "", true, false)
 		}
 		for i, wp := range p.Watchers {
-			m.doWrite(tgt.Watch, 0, QueryOf(wp.Q).sentinelKey(i), "", "", false, nil)
+			m.doWrite(tgt.Watch, 0, QueryOf(wp.Q).sentinelKey(i), "", m.freshUid(), false, nil)
 		}
 		r.addCalls(m.calls)
 	}()
